@@ -42,7 +42,7 @@ def t_partial(v):
 
 
 def t_leafy(v):
-  return pg.Dict(o=Opaque(v[0]), l=pg.List([Opaque(v[1]), pg.Dict(q=Opaque(v[2]))]), t=(v[3], pg.Dict(w=v[0])))
+  return pg.Dict(o=Opaque(v[0]), l=pg.List([Opaque(v[1]), pg.Dict(q=Opaque(v[2]))]), t=(v[3], pg.Dict(w=v[0]), (pg.Dict(u=v[1]), (pg.List([v[2]]), 7))))
 
 
 def t_ref(v):
@@ -97,15 +97,32 @@ def _pairs(a, b, out):
 
 
 def _leaf_objects(n, out):
-  for _, c in n.sym_items():
+  def visit(c):
     if isinstance(c, pg.Symbolic):
       _leaf_objects(c, out)
     elif isinstance(c, Opaque):
       out.append(c)
     elif isinstance(c, tuple):
       for e in c:
-        if isinstance(e, pg.Symbolic):
-          _leaf_objects(e, out)
+        visit(e)
+  for _, c in n.sym_items():
+    visit(c)
+  return out
+
+
+def _symbolic_nodes_through_tuples(n, out):
+  """Every symbolic container reachable from n, including those held inside (nested) tuples."""
+  def visit(c):
+    if isinstance(c, pg.Ref):
+      return
+    if isinstance(c, pg.Symbolic):
+      out.append(c)
+      for _, e in c.sym_items():
+        visit(e)
+    elif isinstance(c, tuple):
+      for e in c:
+        visit(e)
+  visit(n)
   return out
 
 
@@ -200,9 +217,10 @@ def _fidelity_body(params, v0, v1, v2, v3, t, ck, sealed, acc_off, sc, sa):
     if kind not in DEEP and len(shared) != len(lo):
       return Violation(f'{kind}:shallow_clone_copied_leaf_object', '')
     # symbolic containers nested inside tuples must be copied too
-    ta, tb = node.sym_getattr('t') if 't' in node else None, c.sym_getattr('t') if 't' in c else None
-    if ta is not None and tb is not None and ta[1] is tb[1]:
-      return Violation(f'{kind}:shares_symbolic_node_inside_tuple', '')
+    ids = {id(x) for x in _symbolic_nodes_through_tuples(node, [])}
+    for x in _symbolic_nodes_through_tuples(c, []):
+      if id(x) in ids:
+        return Violation(f'{kind}:shares_symbolic_node_inside_tuple', f'{type(x).__name__} {x!r}'[:200])
   if params['skel'] == 'ref' and t == 0:
     if c.holder.sym_getattr('r').value is not root.holder.sym_getattr('r').value and kind not in DEEP:
       return Violation(f'{kind}:reference_target_not_shared', '')
